@@ -11,7 +11,7 @@ import (
 
 func init() {
 	register("C19", propMeta{
-		Explanation: "E-TAINT + E-LOCK + E-CONST. O-1: in printMetrics every uint event counter of Metrics reaches the logger only as binCount(field); binCount has the ceil-to-8 shape (same constant 8 in the quotient and the product, Ceil not Floor/Round, or the integer form ((x+7)/8)*8); the sets 'counters incremented' = 'counters printed' = 'counters reset' agree, and the per-country maps created in NewMetrics are the ones reset. O-2: the rounded Prometheus counter's (total, value) pair is read and written only under its own mutex, inside one critical section per Inc, never through sync/atomic mixed with plain access, and value grows by the constant 8 only on the total > value edge. O-3: UpdateCountryStats/RecordIPAddress run with Metrics.lock in their entry lockset and every per-country count change lies behind the 'address not seen yet' edges. O-4: in ipsetsink the raw address reaches the sketch only through the keyed HMAC. O-5: the journal window predicate compares RecordingStart with from and RecordingEnd with to. Each is a necessary condition: e.g. a counter printed raw publishes a non-multiple of 8; a non-atomic pair publishes a value below the truth for some schedule. Added after the second seeding round: O-1d the matched figures (clientProxyMatchCount, ClientPollTotal{status=matched}) are incremented only on the edge on which the proxy's answer was received; O-5b every journal line is decoded into a record and a sketch created in that iteration; O-5c the journal reader uses no length-limited line scanner, or returns its Err() (D19). Added after the third seeding round: O-1e the guarded-by rows of Metrics and CountryStats are evaluated here too (an increment outside metrics.lock can be lost, publishing a count below the truth); O-4b RecordIPAddress is called from ProxyPolls itself on every path that updates the country statistics, and WriteIPSetToDisk resets the sketch and advances lastWriteTime on every way out after the chunk was written; O-4 no longer names maskIPAddress: the value added to the sketch must derive from hmac.New(_, ipMaskingKey).Sum. Added after the fourth seeding round: O-1 follows each counter forward (taint analysis through tables, helpers and loops) to the logger, binCount being the only sanitiser; O-1f every decoded poll increments one of the two relay-extension counters on every path; O-4 the bytes written to the HMAC are the address string itself. Added after the fifth seeding round: O-1g the per-type report and its total range over countryStats.proxies itself; the nat label of ProxyPollTotal{status=matched} is the NAT type decoded from this poll; ClusterWriter.AddIPToSet adds the address to the current sketch on every path. Added after the sixth seeding round and the mutation audit: O-4b RecordIPAddress receives result 0 of net.SplitHostPort; O-5d ClusterCounter.Count returns a result only behind the decoder's io.EOF edge. O-5 the merge is reachable only on the outcomes of the window tests that exclude nothing; O-5e/O-5f error discipline in ipsetsink.",
+		Explanation: "E-TAINT + E-LOCK + E-CONST. O-1: in printMetrics every uint event counter of Metrics reaches the logger only as binCount(field); binCount has the ceil-to-8 shape (same constant 8 in the quotient and the product, Ceil not Floor/Round, or the integer form ((x+7)/8)*8); the sets 'counters incremented' = 'counters printed' = 'counters reset' agree, and the per-country maps created in NewMetrics are the ones reset. O-2: the rounded Prometheus counter's (total, value) pair is read and written only under its own mutex, inside one critical section per Inc, never through sync/atomic mixed with plain access, and value grows by the constant 8 only on the total > value edge. O-3: UpdateCountryStats/RecordIPAddress run with Metrics.lock in their entry lockset and every per-country count change lies behind the 'address not seen yet' edges. O-4: in ipsetsink the raw address reaches the sketch only through the keyed HMAC. O-5: the journal window predicate compares RecordingStart with from and RecordingEnd with to. Each is a necessary condition: e.g. a counter printed raw publishes a non-multiple of 8; a non-atomic pair publishes a value below the truth for some schedule. Added after the second seeding round: O-1d the matched figures (clientProxyMatchCount, ClientPollTotal{status=matched}) are incremented only on the edge on which the proxy's answer was received; O-5b every journal line is decoded into a record and a sketch created in that iteration; O-5c the journal reader uses no length-limited line scanner, or returns its Err() (D19). Added after the third seeding round: O-1e the guarded-by rows of Metrics and CountryStats are evaluated here too (an increment outside metrics.lock can be lost, publishing a count below the truth); O-4b RecordIPAddress is called from ProxyPolls itself on every path that updates the country statistics, and WriteIPSetToDisk resets the sketch and advances lastWriteTime on every way out after the chunk was written; O-4 no longer names maskIPAddress: the value added to the sketch must derive from hmac.New(_, ipMaskingKey).Sum. Added after the fourth seeding round: O-1 follows each counter forward (taint analysis through tables, helpers and loops) to the logger, binCount being the only sanitiser; O-1f every decoded poll increments one of the two relay-extension counters on every path; O-4 the bytes written to the HMAC are the address string itself. Added after the fifth seeding round: O-1g the per-type report and its total range over countryStats.proxies itself; the nat label of ProxyPollTotal{status=matched} is the NAT type decoded from this poll; ClusterWriter.AddIPToSet adds the address to the current sketch on every path. Added after the sixth seeding round and the mutation audit: O-4b RecordIPAddress receives result 0 of net.SplitHostPort; O-5d ClusterCounter.Count returns a result only behind the decoder's io.EOF edge. O-5 the merge is reachable only on the outcomes of the window tests that exclude nothing; O-5e/O-5f error discipline in ipsetsink. Added after the seventh seeding round: O-1h every entry stored into countryStats.proxies is a map made for that entry (a set made once in front of the loop is shared by all proxy types).",
 		NotDecided:  "floating-point exactness of binCount beyond 2^53, HyperLogLog accuracy, which events should be counted, the arithmetic correctness of rounding for all histories (only its shape is decided).",
 		Assumptions: []string{"math.Ceil, crypto/hmac and hyperloglog behave as documented", "lock identity is (type, field)"},
 	}, runC19)
